@@ -169,6 +169,9 @@ func concString(st *State, v AV, want interface{}) string {
 		if !x.Known {
 			return "unknown"
 		}
+		if w, ok := want.(float64); ok && w < 0 {
+			return fmt.Sprint(x.V) // a signed result: the bits read as two's complement
+		}
 		return fmt.Sprint(uint64(x.V))
 	case BoolV:
 		if x.T == x.F {
@@ -249,7 +252,7 @@ func concreteMain(args []string) int {
 		var got []string
 		var want []string
 		fail := ""
-		if c.Fn == "quadtree:add*,InBound" {
+		if strings.HasPrefix(c.Fn, "quadtree:") {
 			got, want, fail = concQuadtree(p, it, s, c)
 		} else {
 			fn := p.funcByShortKey(c.Fn)
@@ -355,6 +358,59 @@ func concQuadtree(p *Program, it *Interp, s *State, c concCase) (got, want []str
 			return nil, nil, why
 		}
 		s = st
+	}
+	if c.Fn == "quadtree:add*,remove,KNearest" || c.Fn == "quadtree:add*,remove,Find" {
+		// args: points, index of the point removed after the adds (-1: none), query point, k
+		var rm, k int
+		json.Unmarshal(c.Args[1], &rm)
+		if rm >= 0 && rm < len(ps) {
+			v, _ := concBuild(it, s, ps[rm])
+			st, why = run("quadtree.(*Quadtree).Remove", []AV{tree, IfaceV{Typ: pt, Val: v}, FuncV{Nil: true}})
+			if why != "" {
+				return nil, nil, why
+			}
+			s = st
+		}
+		q, _ := concBuild(it, s, c.Args[2])
+		if c.Fn == "quadtree:add*,remove,Find" {
+			st, why = run("quadtree.(*Quadtree).Find", []AV{tree, q})
+			if why != "" {
+				return nil, nil, why
+			}
+			iv, _ := st.result[0].(IfaceV)
+			if iv.Nil {
+				return []string{"nil"}, []string{strings.Replace(string(c.Res[0]), "null", "nil", 1)}, ""
+			}
+			g, w := concRender(st, iv.Val, c.Res[0])
+			return []string{g}, []string{w}, ""
+		}
+		json.Unmarshal(c.Args[3], &k)
+		st, why = run("quadtree.(*Quadtree).KNearest", []AV{tree, SliceV{Nil: true}, q, IntV{Known: true, V: int64(k)}, SliceV{Nil: true}})
+		if why != "" {
+			return nil, nil, why
+		}
+		// render the pointers as their points
+		res, _ := st.result[0].(SliceV)
+		var elems []AV
+		if !res.Nil {
+			for _, e := range membersOf(st, res) {
+				if iv, ok := e.(IfaceV); ok {
+					elems = append(elems, iv.Val)
+				}
+			}
+		}
+		var gs []string
+		var wants []json.RawMessage
+		json.Unmarshal(c.Res[0], &wants)
+		if len(wants) != len(elems) {
+			return []string{fmt.Sprintf("%d results", len(elems))}, []string{fmt.Sprintf("%d results", len(wants))}, ""
+		}
+		var ws []string
+		for i, e := range elems {
+			g, w := concRender(st, e, wants[i])
+			gs, ws = append(gs, g), append(ws, w)
+		}
+		return []string{strings.Join(gs, " ")}, []string{strings.Join(ws, " ")}, ""
 	}
 	b, _ := concBuild(it, s, c.Args[1])
 	st, why = run("quadtree.(*Quadtree).InBound", []AV{tree, SliceV{Nil: true}, b})
